@@ -190,6 +190,8 @@ func NewInstance(base string) *Instance {
 		in.P = bluemonday.UGCPolicy()
 	case "strict":
 		in.P = bluemonday.StrictPolicy()
+	case "striptags":
+		in.P = bluemonday.StripTagsPolicy()
 	default:
 		panic("harness: unknown base " + base)
 	}
